@@ -1243,7 +1243,7 @@ def _tail_pos(text, st, bo):
                     if nxt is None: break
                     if nxt.kind == "ident" and nxt.text == "else":
                         k += 1; continue
-                    if nxt.kind == "punct" and nxt.text in (".", "?", ";", ")", ","):
+                    if nxt.kind == "punct" and nxt.text in (".", "?", ";", ")", ",", "="):  # "=": a struct PATTERN of `if let P { .. } = e`
                         k += 1; continue
                     # statement ended
                     last_start = k + 1
